@@ -9,6 +9,10 @@ is a recording fake.  Observed per operation: everything handed to `sendMessage`
 variant signature and value are decoded from the raw body bytes by the harness's own decoder), error
 replies, PropertiesChanged signals - printed in the vocabulary of the Lean driver.
 
+Beyond the three correspondence streams two ORACLE-ONLY streams run (no model): `lazy-binding` (no warm-up of the
+class caches: assignments happen before any walk, the "assign in __init__, then export" order) and
+`sibling-classes` (two subclasses of a common base that declares the DBusProperty attributes).
+
 Two independent judgements:
   S3  the Lean model (lean/TxdbusModel/Obj/Props.lean through drv_c17) prints the same lines;
   S4  `Oracle` below, written from the property statement, keeps its own (interface, property) -> value
@@ -36,11 +40,18 @@ TRUSTED_BASE = [
     'message headers are read back with txdbus.message.parseMessage (C03)',
 ]
 ASSUMPTIONS = [
-    'one single-inheritance chain of DBusObject subclasses, instances of the most derived class only; every '
-    "DBusProperty names (or resolves to) an interface of the object that declares its property name",
-    'the per-class interface caches are built before the first assignment (the harness calls '
-    "getAllProperties('org.freedesktop.DBus.Properties') on the new instance, the walk exportObject itself "
-    'does); the lazy binding window of DBusProperty.__get__/__set__ before that is outside the model',
+    'model and theorems: one single-inheritance chain of DBusObject subclasses, instances of the most derived '
+    "class only; every DBusProperty names (or resolves to) an interface of the object that declares its property "
+    'name; declared signatures among the 12 basic types, as, v (other container signatures are run through the '
+    'shared codec model and compared, no theorem); sibling subclasses are judged by the oracle only',
+    'in the correspondence streams the per-class interface caches are built before the first assignment (the '
+    "harness calls getAllProperties('org.freedesktop.DBus.Properties') on the new instance, the walk exportObject "
+    'itself does); the lazy binding window of DBusProperty.__get__/__set__ is exercised by the oracle-only stream '
+    'lazy-binding and not modelled',
+    'an unnamed DBusProperty whose name is listed by several interfaces of the object is not judged (which '
+    'interface it means is not fixed by the statement)',
+    "a local value conforms to a declared basic type if its plain value is of that type: Byte(7) conforms to 'u', "
+    "ObjectPath('/a') to 's'; an int does not conform to 'd' (DESIGN C17 (iii))",
     'values assigned locally conform to the declared type (DESIGN C17 (iii)); non-conforming local values '
     'are generated to exercise the model but are not judged by the oracle',
     "Get/Set/GetAll with the empty interface name ('' = any interface) are compared with the model and not judged",
